@@ -206,7 +206,7 @@ impl Prop for C14 {
         if squeezed.contains("type alias") {
             tags.push("has_type_alias".into());
         }
-        if [":float", ": float", ":(", ": (", ":{", ":Pt", ": Pt", ": List", ":List", ": Dir", ":Dir", ":()", ": ()"].iter().any(|p| squeezed.contains(p)) {
+        if [":float", ": float", ":(", ": (", ":{", ":`", ": `", ":[", ": [", ":Pt", ": Pt", ": List", ":List", ": Dir", ":Dir", ":()", ": ()"].iter().any(|p| squeezed.contains(p)) {
             tags.push("has_type_annotation".into());
         }
         if src.lines().any(|l| l.trim_end().ends_with("{ // c") || l.trim_end().ends_with("} // c") || l.contains("{ //") || l.trim_start().starts_with("} //")) {
